@@ -467,6 +467,12 @@ RECURSIVE CalledThrough(_, _)
 CalledThrough(D, n) ==
     UNION { IF IsCachedNode(D, m) THEN {m} ELSE CalledThrough(D, m) : m \in CalledOK(D, n) }
 
+\* ... counting every attempt: a callee that fails under the current definitions may still
+\* HOLD a value (known finding KF1), which is then what the caller consumed
+RECURSIVE CalledThroughAny(_, _)
+CalledThroughAny(D, n) ==
+    UNION { IF IsCachedNode(D, m) THEN {m} ELSE CalledThroughAny(D, m) : m \in Called(D, n) }
+
 RECURSIVE TransDeps(_, _, _)
 TransDeps(D, front, seen) ==
     LET nxt == UNION {CalledOK(D, m) : m \in front} \ seen IN
